@@ -185,6 +185,17 @@ def run(prop, tier, seed, replay=None):
                                            ["propupdate", "ab1", [["displayname", "contacts"]]],
                                            ["propupdate", "ab1", [["displayname", "addressbook"]]],
                                            ["propupdate", "ab1", [["displayname", None]]]]),
+        # reads that transform what they return (expansion of recurring events), followed by a
+        # client storing again what the server serves
+        "expand-then-reupload": (HTTP_CONFIGS[0], [["mk", "cal1", "calendar"],
+                                                   ["put", "cal1", "r.ics", "@recurring"], ["put", "cal1", "d.ics", "@recurring-tz"],
+                                                   ["put", "cal1", "a.ics", "@model:1"],
+                                                   ["reupload", "cal1", "r.ics"], ["expandquery", "cal1"],
+                                                   ["reupload", "cal1", "r.ics"], ["get", "cal1", "r.ics"],
+                                                   ["reupload", "cal1", "d.ics"], ["expandquery", "cal1"],
+                                                   ["multiget", "cal1", [["live", "r.ics"], ["live", "d.ics"]]],
+                                                   ["reupload", "cal1", "d.ics"], ["reupload", "cal1", "a.ics"], ["restart"],
+                                                   ["reupload", "cal1", "r.ics"]]),
         # bare repositories served by one long-lived process: a request that fails half-way (the
         # delete of an object whose change description cannot be made), histories that return to
         # an earlier tree (create, delete, create again with the UID that became free)
@@ -203,6 +214,12 @@ def run(prop, tier, seed, replay=None):
                                            ["get", "cal1", "t.ics"],
                                            ["multiget", "cal1", [["live", "keep.ics"], ["live", "y.ics"], ["missing", "z.ics"]]]]),
     }
+    # the same property update sent in every encoding / Content-Type spelling of the request body
+    steps = [["mk", "cal1", "calendar"], ["mk", "ab1", "addressbook"]]
+    for k, enc in enumerate(["latin1-both", "latin1-prolog", "utf8-param", "appxml", "utf16", None]):
+        steps.append(["propupdate", "cal1", [["displayname", "Gr\u00fc\u00dfe \u00ff %d" % k]], {"enc": enc}])
+        steps.append(["propupdate", "ab1", [["displayname", "caf\u00e9 %d" % k], ["comment", "\u00c3\u00a9 %d" % k]], {"enc": enc}])
+    DIRECTED["request-encodings"] = (HTTP_CONFIGS[1], steps)
     # text that looks like an escape sequence, on the collections whose settings live in the
     # repository configuration (.git/config / config of a bare repository)
     for k, cfg in (("treecfg", HTTP_CONFIGS[5]), ("barecfg", HTTP_CONFIGS[6])):
